@@ -15,7 +15,8 @@ RULE = ("Histories = a generated key set (1-12 unique keys of a signed/unsigned 
         "refused, table unchanged), to_dict / items, zeros_like / ones_like (with and without dtype=; the copy is then mutated "
         "independently), t + t2 and t == t2 for tables of the same key layout.  Oracle = a Python dict; invariant after every "
         "step: every key looks up to the dict's value and the key set is unchanged.  Non-trivial = (two keys share a bucket, or "
-        "a negative key, or modulus 1) and an assignment precedes a lookup.")
+        "a negative key, or modulus 1) and an assignment precedes a lookup."
+        "  Key vectors as arrays, lists and tuples; the constructor's key / value arrays and every looked-up vector are overwritten by the caller afterwards.")
 ASSUMPTIONS = ["values stay inside the value dtype (0..60, or halves for float tables)",
                "tables built from the same key set in a different order have different bucket layouts: + and == across "
                "layouts are not asserted",
@@ -354,6 +355,18 @@ def key_setup(draw):
             ks.append(c if (j % 2 and lo <= c <= hi and c not in ks) else k)
         if len(set(ks)) == n:
             keys = ks
+    elif draw(st.integers(0, 2)) == 0 and n >= 2:
+        # several keys in bucket 0 (multiples of the modulus), with or without the key 0 itself; the rest elsewhere
+        m_eff = mod if mod is not None else 2 * n - 1
+        first = draw(st.sampled_from([0, 1, 1]))
+        k0 = draw(st.integers(2, n))
+        ks = [j * m_eff for j in range(first, first + k0)]
+        ks = [k for k in ks if lo <= k <= hi]
+        for k in keys:
+            if len(ks) < n and k not in ks:
+                ks.append(k)
+        if len(set(ks)) == len(ks) and len(ks) >= 1 and (mod is None and len(ks) == n or mod is not None):
+            keys = ks
     return dt, keys, mod
 
 
@@ -479,7 +492,55 @@ def hashset_case(draw, tier):
     return {"dt": dt, "keys": keys, "mod": mod, "q": draw(st.lists(q, min_size=1, max_size=8))}
 
 
+# ---------------------------------------------------------------- a constant table: reads, then fill with any number
+
+WIDE_FILL = [2.5, -1, 300, 70000, -0.5, 2**40, 0, 7]
+CONST_READS = ["to_dict", "items", "getv", "get1", "contains", "zeros_like", "eq-self", "getmiss"]
+
+
+def body_const_fill(case, ctx):
+    """HashTable(keys, c) is never assigned to, only read (to_dict / items / lookups / contains / zeros_like ...) and then
+    filled with a number that need not fit the key dtype; afterwards every lookup and to_dict answer that number.  Reads
+    must not change what a later fill does."""
+    from npstructures import HashTable
+    dt, keys, mod, c, w = case["dt"], case["keys"], case["mod"], case["c"], WIDE_FILL[case["w"] % len(WIDE_FILL)]
+    ctx.label("dt:" + dt, "fill:" + type(w).__name__, "reads:%d" % len(case["reads"]), *["read:" + r for r in case["reads"]])
+    ctx.nt(len(case["reads"]) > 0)
+    karr = np.array(keys, dtype=dt)
+    r = lib(lambda: HashTable(karr, c, mod=mod) if mod is not None else HashTable(karr, c))
+    if not r.ok:
+        raise Violation("const-fill:init-refused", got=r.brief())
+    t = r.value
+
+    def agree(v, stage):
+        got = lib(lambda: t[np.array(keys, dtype=dt)])
+        if not got.ok or np.asarray(got.value).shape != (len(keys),) or not all(same_scalar(float(x), float(v)) for x in np.asarray(got.value)):
+            raise Violation("const-fill:lookup", stage=stage, expected=v, got=got.brief(), reads=case["reads"])
+        d = lib(lambda: t.to_dict() if stage == "after-fill" else None)
+        if stage == "after-fill" and (not d.ok or {int(k) for k in d.value} != set(keys) or not all(float(x) == float(v) for x in d.value.values())):
+            raise Violation("const-fill:to_dict", expected=v, got=d.brief(), reads=case["reads"])
+    for rd in case["reads"]:
+        f = {"to_dict": lambda: t.to_dict(), "items": lambda: list(t.items()), "getv": lambda: t[list(keys)], "get1": lambda: t[keys[0]],
+             "contains": lambda: t.contains(np.array(keys, dtype=dt)), "zeros_like": lambda: np.zeros_like(t), "eq-self": lambda: t == t,
+             "getmiss": lambda: t[np.array([k for k in (max(keys) - 1, min(keys) + 1, 0, 1) if k not in keys][:1], dtype=dt)]}[rd]
+        lib(f)          # the read's own outcome is the history machine's business
+    agree(c, "before-fill")
+    out = lib(t.fill, w)
+    if not out.ok:
+        raise Violation("const-fill:fill-refused", value=w, got=out.brief(), reads=case["reads"])
+    agree(w, "after-fill")
+
+
+@st.composite
+def const_fill_case(draw, tier):
+    dt, keys, mod = draw(key_setup())
+    return {"dt": dt, "keys": keys, "mod": mod, "c": draw(st.sampled_from([0, 1, 7, 30])), "w": draw(st.integers(0, 7)),
+            "reads": draw(st.lists(st.sampled_from(CONST_READS), max_size=3))}
+
+
 SUBCHECKS = [
+    SubCheck("constant-table-fill", body_const_fill, const_fill_case, quick=3000, thorough=200000, shards_quick=2,
+             doc="a never-assigned constant table: 0-3 reads, then fill with a number that need not fit the key dtype; lookups and to_dict follow it"),
     SubCheck("history", body_history, kind="machine", machine=machine, steps=20, quick=5000, thorough=450000, shards_quick=14,
              doc="rule-based state machine over HashTable vs dict model (invariant after every step)"),
     SubCheck("hashset", body_hashset, hashset_case, quick=3000, thorough=150000, shards_quick=2,
